@@ -196,7 +196,7 @@ def run_property(prop, tier, seed):
         for fid, info in unit.fns.items():
             kind = info["kind"]
             fl = fails_by_fid.get(fid, [])
-            relevant = prop in info["props"] or any(prop in ps for ps in info["clause_props"].values())
+            relevant = prop in info["props"] or any(prop in ps for ps in info["clause_props"].values()) or uname in cfg.get("safety_units", [])
             if kind == "stub":
                 o = info["obj"]
                 stubs.append({"unit": uname, "function": fid, "file": o.file,
@@ -259,6 +259,8 @@ def run_property(prop, tier, seed):
                     props = set(ltoks) | set(info["props"])
                 else:   # a failed safety condition / invariant leaves every clause of the function unproved
                     props = set(info["props"]).union(*[set(ps) for ps in info["clause_props"].values()])
+                    if uname in cfg.get("safety_units", []):
+                        props.add(prop)      # panic-freedom of this unit's functions is part of this property
                 if prop not in props:
                     continue
                 failed_labels.add(f["label"])
